@@ -85,8 +85,9 @@ Judge_insert_registers(e) ==
   LET c == e.c  r == e.r  rt == e.rt IN
   Machinery(c) \cup Machinery(rt)
   \cup (IF c.n <= 10 /\ WellFormedRec(c) /\ WellFormedRec(r) /\ c.acyc
-           /\ LET m == IF e.latch THEN InsertRegistersModel(ToNamed(c), e.k, [type |-> "lat", ins |-> {"d"}, outs |-> {"q"}], "d", "q", <<>>)
-                       ELSE InsertRegistersModel(ToNamed(c), e.k, [type |-> "ff", ins |-> {"clk", "d"}, outs |-> {"q"}], "d", "q", << <<"clk", "clk">> >>)
+           /\ LET qs == IF "qs" \in DOMAIN e THEN e.qs ELSE "_cg_insert_reg_q_"
+                  m == IF e.latch THEN InsertRegistersModelQ(ToNamed(c), e.k, [type |-> "lat", ins |-> {"d"}, outs |-> {"q"}], "d", "q", <<>>, qs)
+                       ELSE InsertRegistersModelQ(ToNamed(c), e.k, [type |-> "ff", ins |-> {"clk", "d"}, outs |-> {"q"}], "d", "q", << <<"clk", "clk">> >>, qs)
               IN ~m.ok \/ ToNamed(r) # m.st
         THEN {"DRIFT:insert_registers_differs_from_as_built_model"} ELSE {})
   \cup (IF rt.acyc /\ TransparentOf(rt, r, "d", "q") THEN {} ELSE {"MACHINERY:transparent_hint_wrong"})
